@@ -34,6 +34,7 @@ const (
 )
 
 type task struct {
+	ops     int // kernel requests handled for this task so far
 	id      int
 	name    string
 	state   tstate
@@ -100,6 +101,7 @@ func (h *eventHeap) Pop() any {
 
 // Kernel holds all simulator state of one run.
 type Kernel struct {
+	validBuf  []int
 	cfg       Config
 	src       Source
 	disk      *Disk
@@ -191,6 +193,7 @@ func removeInt(s []int, v int) []int {
 // t.pending (the reply t sees when it next runs) and wake other tasks.
 func (k *Kernel) handle(t *task, r *Req) {
 	t.pending = Rep{}
+	t.ops++
 	// (a final WaitGroup.Done is bookkeeping of a task whose work is over, like its exit)
 	if k.afterRoot && r.Op != OpExit && !(r.Op == OpWGAdd && r.A < 0) && t != k.root {
 		k.res.WorkAfterRoot++
@@ -441,6 +444,7 @@ func (k *Kernel) wakeWriters(m *mutexSt) {
 // schedule picks the task that runs next. It returns nil when every task is
 // dead, or when the run is being aborted (deadlock, budget).
 func (k *Kernel) schedule() *task {
+	loops := 0
 	for {
 		if k.aborting {
 			return nil
@@ -484,18 +488,56 @@ func (k *Kernel) schedule() *task {
 				}
 			}
 		}
-		n := len(run)
+		// The decision is encoded so that a recorded schedule stays meaningful when other
+		// decisions are removed by the minimiser: the label names the scheduling point by the
+		// task that ran last and the number of requests it has made; the value is 0 for the
+		// default (continue the current task, else the runnable task with the lowest id), a
+		// task id to run that task, or (number of tasks + 1) to let simulated time pass.
+		alts := len(run)
 		if len(k.events) > 0 {
-			n++ // last alternative: let simulated time pass until the next event
+			alts++
 		}
 		pick := 0
-		if n > 1 && !k.cfg.NoPreempt {
+		if alts > 1 && !k.cfg.NoPreempt {
 			k.res.SchedPoints++
-			pick = k.src.Choose("sched", n)
+			label := "sched"
+			if k.cur != nil {
+				label = fmt.Sprintf("sched.t%d#%d", k.cur.id, k.cur.ops)
+				if loops > 0 {
+					label += fmt.Sprintf(".%d", loops)
+				}
+			}
+			eventV := len(k.tasks) + 1
+			var v int
+			if cf, ok := k.src.(ChooserFrom); ok {
+				valid := k.validBuf[:0]
+				valid = append(valid, 0)
+				for _, t := range run[1:] {
+					valid = append(valid, t.id)
+				}
+				if len(k.events) > 0 {
+					valid = append(valid, eventV)
+				}
+				k.validBuf = valid
+				v = cf.ChooseFrom(label, len(k.tasks)+2, valid)
+			} else {
+				v = k.src.Choose(label, len(k.tasks)+2)
+			}
+			switch {
+			case v == eventV && len(k.events) > 0:
+				pick = len(run)
+			case v > 0 && v <= len(k.tasks):
+				for i, t := range run {
+					if t.id == v {
+						pick = i
+					}
+				}
+			}
 			if pick != 0 {
 				k.res.Switches++
 			}
 		}
+		loops++
 		if pick >= len(run) {
 			k.fireEvent()
 			continue
